@@ -71,6 +71,11 @@ func c06Failing(m *Model) []string {
 		"deploy s3 h=c.example.com p=/ n=2 bad=unhealthy-one",
 		"deploy s3 h=c.example.com p=/ n=2 dup=1 bad=unhealthy-all", // the same target named twice
 		"rdeploy s1 n=2 dup=1 bad=unhealthy-all",
+		// (2b) the same, repeating the service's hosts and paths but with other per-target options (health-check path,
+		// buffering limits, target timeout)
+		"deploy s1 h=a.example.com p=/ n=1 o=hc bad=unhealthy-all",
+		"deploy s1 h=a.example.com p=/ o=buf bad=malformed-first",
+		"deploy s1 h=a.example.com p=/ n=1 o=tt bad=unhealthy-all",
 		// (3) unreadable certificate
 		"deploy s1 h=a.example.com p=/ bad=cert",
 		"deploy s3 h=c.example.com p=/ bad=cert",
@@ -120,6 +125,20 @@ func c06Spec(tier string) *HSpec {
 	var before *HObs
 	var beforeFile string
 	var beforeFP string
+	var beforeOpts string
+	// the options every installed service runs with (service and per-target options), read off the live objects
+	liveOptions := func(h *HWorld) string {
+		var parts []string
+		h.Router.serviceLock.RLock()
+		for _, n := range sortedKeys(h.Router.services.services) {
+			sv := h.Router.services.services[n]
+			sv.serviceLock.Lock()
+			parts = append(parts, fmt.Sprintf("%s: %+v %+v", n, sv.options, sv.targetOptions))
+			sv.serviceLock.Unlock()
+		}
+		h.Router.serviceLock.RUnlock()
+		return strings.Join(parts, "\n")
+	}
 	obs := ObsSpec{
 		Hosts: []string{"a.example.com", "b.example.com", "x.example.com", "other.org"}, Paths: []string{"/", "/api/x"},
 		Cookies: []string{"", "v", "w"}, TLS: []bool{false, true},
@@ -161,6 +180,7 @@ func c06Spec(tier string) *HSpec {
 		before = h.observe(obs)
 		beforeFP = before.fingerprint(h)
 		beforeFile = canonicalState(h.State)
+		beforeOpts = liveOptions(h)
 	}
 	spec.Extra = func(h *HWorld, op HOp, o *HObs) []Violation {
 		var vs []Violation
@@ -173,6 +193,9 @@ func c06Spec(tier string) *HSpec {
 		_ = beforeFP
 		if afterFP != bFP {
 			vs = append(vs, Violation{"C06", "failed-command-changed-behaviour class=" + class + " " + op.Kind, fmt.Sprintf("after failing %q (%v) the observable behaviour differs:\n%s", op.raw, h.lastCmd.Err, firstDiff(bFP, afterFP))})
+		}
+		if ao := liveOptions(h); ao != beforeOpts {
+			vs = append(vs, Violation{"C06", "failed-command-changed-options class=" + class + " " + op.Kind, fmt.Sprintf("after failing %q (%v) the installed services run with other options:\n%s", op.raw, h.lastCmd.Err, firstDiff(beforeOpts, ao))})
 		}
 		if af := canonicalState(h.State); af != beforeFile {
 			vs = append(vs, Violation{"C06", "failed-command-changed-saved-state class=" + class + " " + op.Kind, fmt.Sprintf("after failing %q the state file changed:\n before: %s\n after:  %s", op.raw, firstN([]byte(beforeFile), 600), firstN([]byte(af), 600))})
